@@ -431,7 +431,7 @@ def r65(ctx):
                 te |= fvv.result_edges(bi, c, "ok")
         # the last condition is returned directly (tail); earlier ones must have been true
         if nm == "is_no_incoming":
-            ctx.ob("R6.5", bool(te) and all(fvv.must_pass(r["block"], te) for r in trues), f"{fb.name}/needs/{nm}",
+            ctx.ob("R6.5", bool(te) and all(fvv.must_pass(R.site_block(r), te) for r in trues), f"{fb.name}/needs/{nm}",
                    f"a forwarded payment can be pruned although something is still incoming", where=f"{fb.file}:{fb.line}", sample=f"{nm}() required")
     # who may decide pruning
     R.who_may_call(ctx, "R6.5", lambda n: n == f"{NS}::is_invoice_prunable",
